@@ -103,6 +103,11 @@ class DeadStoreElimination(IRPass):
         for inst in insts:
             if inst is query_def.inst:
                 continue
+            if inst.opcode == "nop":
+                # the (cached) alias analysis can still refer to instructions
+                # which an earlier pass has already removed. they neither
+                # read nor write anything.
+                continue
             other_loc = self.mem_ssa.memalias.base_ptr.get_write_location(
                 inst, addr_space=self.addr_space
             )
